@@ -29,6 +29,8 @@ checks = {
    text="Held on the executions observed: roster histories crossing the 2-byte counter boundaries are read back in order; verifyPlacementSignatures=true (and a successful submitObjectPut) is accepted only if the Go oracle finds >= REP distinct members with a valid signature in every vector; honest matrices must be accepted.", ref="§3 C14"),
  "C09": dict(tech="runtime monitoring: executable lock model stepping with the transaction stream; exact multiset of unlock transfers and balance deltas per epoch tick, state read-back of every lock after every block",
    text="Held on the executions observed: lock/burn/transfer/tick histories with many locks sharing parents and expiry epochs; each tick's unlock events and balance deltas must equal the model's expired set exactly (exactly-once by construction of the model).", ref="§3 C09"),
+ "C17": dict(tech="runtime monitoring: ballot reference model stepping with every invocation; exhaustive short call sequences plus PRNG histories; exactly-once check of effect and notification in the firing transaction",
+   text="Held on the executions observed; all setConfig call sequences of length 3 (quick) / 4 (thorough) for 1..3 Alphabet keys over {stranger, members} x 2 ids x gaps {0,1,20,21} are executed on the real contract, plus PRNG histories for 1..7 keys over cheque, alphabetUpdate, candidate removal; the model names the invocation in which each decision fires and the effect/notification must appear exactly there; strangers must never count.", ref="§3 C17"),
  "C18": dict(tech="runtime monitoring: exhaustive small-scope input enumeration through read-only invocations of the real contract, judged by independent predicates (names) and a MUST/MAY sandwich over net/netip (addresses)",
    text="Held on the executions observed; the finite scope named in the quantifier (all strings of length <= 5 quick / <= 6 thorough over the reduced alphabet, complete address mutation lists) is executed completely, plus boundary lengths and up to a million grammar-biased random strings; a sample of refusals is submitted as real transactions and must leave an empty storage diff.", ref="§3 C18"),
  "C20": dict(tech="runtime monitoring: multimap reference models of five stores; every getter/lister read for every pool element after every operation; known-finding matcher for prefix-scan aliasing",
